@@ -80,56 +80,54 @@ def directory_rules(ctx: Ctx) -> None:
     okm = len(mb.args) == 2 and ast.unparse(mb.args[0]) == item and isinstance(mb.args[1], ast.Starred) and try_ev(ctx, init, mb.args[1].value) is not None \
         and tuple(try_ev(ctx, init, mb.args[1].value)) == simfile_ext
     ctx.expect("R-TABLE", init, "each entry is matched against extensions.SIMFILE", okm, "", f"{src(mb)}", node=mb)
-    lits = {}
-    for n in [x for st in lp.body for x in walk_no_nested(st) if isinstance(x, ast.Compare)]:
-        if isinstance(n.left, ast.Name) and n.left.id == mname and isinstance(n.ops[0], ast.Eq):
-            lits[try_ev(ctx, init, n.comparators[0])] = n
-    ctx.expect("R-TABLE", init, "the extensions dispatched on are exactly extensions.SIMFILE", set(lits) == set(simfile_ext), str(sorted(lits)), f"dispatch literals {sorted(lits)} vs {simfile_ext}", node=lp)
-    # the two branches are clones modulo sm <-> ssc
-    branches = {}
-    for n in [x for st in lp.body for x in walk_no_nested(st) if isinstance(x, ast.If)]:
-        t = n.test
-        if isinstance(t, ast.Compare) and isinstance(t.left, ast.Name) and t.left.id == mname:
-            branches[try_ev(ctx, init, t.comparators[0])] = "\n".join(ast.unparse(s) for s in n.body)
-    _nrm = lambda t: re.sub(r"__inl\d+", "__inl", t)
-    a, b = _nrm(branches.get(".sm", "")), _nrm(branches.get(".ssc", ""))
-    ctx.expect("R-CLONE", init, "duplicate handling is the same for .sm and .ssc", bool(a) and a.replace("sm_path", "X_path") == b.replace("ssc_path", "X_path"), "", "the two branches differ in more than the path attribute", node=lp)
-    # per entry: record the first file of a kind; a second one raises unless duplicates are ignored (then the first wins)
-    from ..decide import decisions, judge_table, IGNORE
-    for ext, attr in ((".sm", "sm_path"), (".ssc", "ssc_path")):
-        stores = [n for st in lp.body for n in walk_no_nested(st) if isinstance(n, ast.Assign) and self_attr(n.targets[0], sn) == attr]
-        okp = len(stores) == 1
-        if okp:
-            pv = inline(stores[0].value, init)
-            okp = matches("$s._path.join($d, $i)", pv) and ast.unparse(pv.args[0]) == init.param_names()[1] and ast.unparse(pv.args[1]) == item
-        ctx.expect("R-PROV", init, f"{attr} is the directory joined with the listed {ext} entry", okp, "", "", node=lp)
-    M, S, C = mname, f"{mname} == '.sm'", f"{mname} == '.ssc'"
+    ctx.expect("R-TABLE", init, "the simfile extensions are .sm and .ssc", set(simfile_ext) == {".sm", ".ssc"}, str(simfile_ext), f"extensions.SIMFILE is {simfile_ext}", node=lp)
+    # per entry (path effects): the first file of a kind is recorded as <directory>/<entry>; a second one raises unless duplicates are ignored (then the first wins)
+    from ..decide import IGNORE
+    from .tables import Dec, closed_text, judge as tjudge, sums_of as tsums
+    sums = tsums(ctx, init)
+    dirp = init.param_names()[1]
+    loop_lines = {e.line for s_ in sums for e in s_.effects if e.kind == "for" and ast.unparse(e.value) == f"{sn}._dirlist"}
+    require(len(loop_lines) == 1, f"{init.fq}: expected one loop over {sn}._dirlist in the path effects, found {sorted(loop_lines)}")
+    line = next(iter(loop_lines))
+    mtexts = {ast.unparse(e.value) for s_ in sums for e in s_.effects if e.kind == "bind" and isinstance(e.target, ast.Name) and e.target.id == mname and e.value is not None}
+    require(len(mtexts) == 1, f"{init.fq}: the match result has several closed forms: {sorted(mtexts)}")
+    MT = next(iter(mtexts))
+    M, S, C = MT, f"{MT} == '.sm'", f"{MT} == '.ssc'"
     P1, P2, I = f"{sn}.sm_path", f"{sn}.ssc_path", f"{sn}._ignore_duplicate"
-
-    def outcome(d):
-        k_, v = d.terminal()
-        if k_ == "raise":
-            e = v.func if isinstance(v, ast.Call) else v
-            return "raise " + ast.unparse(e)
-        for st in d.stmts():
-            if isinstance(st, ast.Assign) and self_attr(st.targets[0], sn) in ("sm_path", "ssc_path") and in_body(lp, st):
-                return "record " + self_attr(st.targets[0], sn)
-        return "skip"
+    JOIN = f"{sn}._path.join({dirp}, {item})"
+    decs = []
+    for s_ in sums:
+        if not any(e.kind == "for" and e.line == line for e in s_.effects):
+            continue
+        toks = []
+        for e in s_.effects:
+            if line not in e.loops:
+                continue
+            if e.kind == "store":
+                toks.append(closed_text(s_, e, keep=[item]))
+            elif e.kind == "raise":
+                v = e.value
+                toks.append("raise " + ast.unparse(v.func if isinstance(v, ast.Call) else v) if v is not None else "raise")
+            elif e.kind in ("expr", "aug", "delete", "break", "return"):
+                toks.append(closed_text(s_, e, keep=[item]) if e.kind not in ("break", "return") else e.kind)
+        decs.append(Dec(dict(s_.atoms_in(line)), tuple(toks), s_))
+    ctx.floor("paths through the directory scan", len(decs), 5)
 
     def spec(a):
         if not a[M]:
-            return "skip"
+            return ()
         if a[S] and a[C]:
             return IGNORE
         for flag, present, attr in ((a[S], a[P1], "sm_path"), (a[C], a[P2], "ssc_path")):
             if flag:
                 if not present:
-                    return "record " + attr
-                return "skip" if a[I] else "raise DuplicateSimfileError"
-        return IGNORE
+                    return (f"{sn}.{attr} = {JOIN}",)
+                return () if a[I] else ("raise DuplicateSimfileError",)
+        return IGNORE if False else ()
 
-    judge_table(ctx, "R-TABLE", init, "the first .sm / .ssc entry is recorded; a second one raises DuplicateSimfileError unless duplicates are ignored (then the first wins)",
-                decisions(ctx, init, nonempty=lambda fornode, env: fornode is lp, stop=[mname]), [M, S, C, P1, P2, I], spec, outcome, node=lp)
+    tjudge(ctx, "R-TABLE", init, "per listed entry: the first .sm / .ssc entry is recorded as <directory>/<entry>; a second one raises DuplicateSimfileError unless duplicates are ignored (then the first wins); "
+           "any other entry changes nothing", decs, [M, S, C, P1, P2, I], spec, node=lp,
+           feasible=lambda full: True, why="documented: one simfile of each kind per directory; the paths are the directory joined with the listed names")
     ig = [n for n in body_walk(init.node) if isinstance(n, ast.Assign) and self_attr(n.targets[0], sn) == "_ignore_duplicate"]
     ctx.expect("R-FWD", init, "ignore_duplicate is the caller's flag", len(ig) == 1 and ast.unparse(ig[0].value) == "ignore_duplicate", "", "", node=init.node)
     cfg = ctx.cfg(init)
@@ -172,17 +170,21 @@ def directory_rules(ctx: Ctx) -> None:
             for i_, e in enumerate(s_.effects):
                 if e.kind in ("return", "yield") and e.value is not None:
                     v_ = _closed(s_, e.value, i_, opq=e.opq)
-                    outs.add(ast.unparse(v_))
+                    # `x.ssc_path or x.sm_path` decided as a branch: which one was chosen on this path
+                    pref = tuple(sorted((k, v) for k, v in s_.plain_assign().items() if k.endswith(".ssc_path")))
+                    outs.add((ast.unparse(v_), pref))
         good = bool(outs)
-        for o in outs:
+        for o, pref in outs:
             t_ = ast.parse(o, mode="eval").body
             okt = isinstance(t_, ast.Tuple) and len(t_.elts) == 2 and matches("$d.open(**$k)", t_.elts[0]) and ast.unparse(t_.elts[0].keywords[0].value) == f.has_kwargs()
             if okt:
                 d_ = ast.unparse(t_.elts[0].func.value)
                 second = ast.unparse(t_.elts[1])
-                okt = second in (f"cast(str, {d_}.ssc_path or {d_}.sm_path)", f"{d_}.ssc_path or {d_}.sm_path", f"cast(str, {d_}.simfile_path)", f"{d_}.simfile_path") and \
+                okt = (second in (f"cast(str, {d_}.ssc_path or {d_}.sm_path)", f"{d_}.ssc_path or {d_}.sm_path", f"cast(str, {d_}.simfile_path)", f"{d_}.simfile_path")
+                       or (second == f"{d_}.ssc_path" and len(pref) == 1 and pref[0][1] is True) or (second == f"{d_}.sm_path" and len(pref) == 1 and pref[0][1] is False)) and \
                     (d_.startswith("SimfileDirectory(") or fq.endswith("openpack"))
             good = good and okt
+        outs = {o for o, _ in outs}
         ctx.expect("R-FWD", f, f"{f.name} returns the simfile opened from, and the path of, the same directory object (through SimfileDirectory.open, which raises FileNotFoundError when there is none)",
                    good, str(sorted(outs))[:200], f"{f.name} answers {sorted(outs)}", node=f.node)
     ctx.floor("'ssc_path or sm_path' expressions", n_pref, 2)
